@@ -9,6 +9,8 @@ structure St where
   out : Option UpOut := none
   orig : Bytes := []
   honest : Bool := true
+  /-- every upload since the last reset: the targets of `cfetch` -/
+  ups : Array (Codec × Option UpOut × Bytes × Bool) := #[]
 
 def judgeOut (n : Nat) (j : Option String) (detail : String) : List String :=
   match j with
@@ -22,6 +24,19 @@ def lineCodec (data G : Bytes) (inputCompressed unzOk : Bool) (unz : Bytes) : Co
                        else if inputCompressed && x == data then (if unzOk then some unz else none) else none,
     enc := fun x => 255 :: x,
     dec := fun x => match x with | 255 :: r => some r | _ => none }
+
+/-- "idx:off:size" -/
+def parseRF (t : String) : Nat × Nat × Nat :=
+  match t.splitOn ":" with
+  | [a, b, c] => (tokNat a, tokNat b, tokNat c)
+  | _ => (0, 0, 0)
+
+def digestTok (b : Bytes) : String := s!"{b.length}:{(fnv64 b).toNat}"
+
+def parseDigest (t : String) : Option (Nat × UInt64) :=
+  match t.splitOn ":" with
+  | [a, b] => some (tokNat a, UInt64.ofNat (tokNat b))
+  | _ => none
 
 def step (st : St) (n : Nat) (ln : Line) : St × List String :=
   let a := ln.args
@@ -46,7 +61,8 @@ def step (st : St) (n : Nat) (ln : Line) : St × List String :=
                 if i.inputCompressed then (if isGz data then "COV up.input-compressed" else "COV up.input-compressed-not-gzip")
                 else if gzNow && !i.cipher then (if data.length > 16 * 1024 && i.mime.isEmpty && (isCompressable (if i.name.isEmpty then ['.'] else i.name) (decide1 i).1).2 == false then "COV up.gzip-by-sample" else "COV up.gzip-by-type")
                 else "COV up.no-gzip"] ++ (if gzNow && i.cipher then ["COV up.cipher-skips-gzip"] else [])
-    ({ codec := c, out := some r, orig := orig, honest := honest }, diff n ln model ++ j ++ cov ++ (if honest then [] else ["COV up.dishonest-gzip-magic"]))
+    let ups := st.ups.push (c, (if o.getD 0 "" == "ok" then some r else none), orig, honest)
+    ({ codec := c, out := some r, orig := orig, honest := honest, ups := ups }, diff n ln model ++ j ++ cov ++ (if honest then [] else ["COV up.dishonest-gzip-magic"]))
   | "fetch" =>
     match st.out with
     | none => (st, diff n ln ["noupload"])
@@ -61,6 +77,22 @@ def step (st : St) (n : Nat) (ln : Line) : St × List String :=
         | .range _ _ => if r.hasKey then "COV fetch.range-cipher" else if r.stored.compressed then "COV fetch.range-gzip" else "COV fetch.range-plain"
       if o == ["panic"] then (st, [specfail n "ReadUrlAsStream/panic-on-malformed-gzip-answer" (toString a), cov]) else
       (st, diff n ln model ++ (if st.honest then judgeOut n (fetchJudge st.orig f got) (toString a) else []) ++ [cov])
+  | "cfetch" =>
+    let plan : List (Nat × Nat × Nat) := a.flatMap fun t => (t.splitOn ",").filter (· ≠ "") |>.map parseRF
+    let model := plan.map fun (idx, off, size) =>
+      match st.ups[idx]? with
+      | some (c, some r, _, _) =>
+        (match fetch c r (.range off size) with
+         | some b => digestTok b
+         | none => "err")
+      | _ => "noupload"
+    let js := (plan.zip o).flatMap fun ((idx, off, size), tok) =>
+      match st.ups[idx]? with
+      | some (_, some _, orig, true) =>
+        if tok == "panic" then [specfail n "ReadUrlAsStream/panic-in-concurrent-fetch" s!"blob={idx} off={off} size={size}"]
+        else judgeOut n (fetchDigestJudge orig off size (parseDigest tok)) s!"blob={idx} off={off} size={size} got={tok}"
+      | _ => []
+    (st, diff n ln model ++ js.take 5 ++ ["COV cfetch"])
   | "fuzz" =>
     let x := tokBytes (a.getD 0 "-")
     let d := if isGz x then [] else diff n ln ["unsupported", "1"]
